@@ -294,7 +294,7 @@ func Check(o Options) int {
 		ex := &interp.Explorer{
 			Prog: ld.prog, Fn: fn, Property: o.Property, Regions: regions,
 			Jobs: o.Jobs, Seed: o.Seed, SolverKind: o.Solver, Trace: o.Trace, Tier: o.Tier,
-			SampleEvery: 1, MaxSamples: 8, TimeoutMs: 10000, MaxSeconds: 420, Progress: o.Verbose,
+			SampleEvery: 1, MaxSamples: 8, TimeoutMs: 10000, MaxSeconds: 900, Progress: o.Verbose,
 			CrossCheckMax: 40,
 		}
 		if o.Tier == "thorough" {
